@@ -45,7 +45,8 @@ top:
 		if 0 < len(tv) {
 			if name, _ := tv[0].(string); 0 < len(name) {
 				if af := NewFn(name); af != nil {
-					af.Args = tv[1:]
+					// Compile a copy. The clause stays as it was written.
+					af.Args, _ = dupLiteral(tv[1:]).([]any)
 					af.compile()
 					value = af
 					goto top
